@@ -197,3 +197,29 @@ func VP_C09_failpack() {
 	}
 	vp.Cover("end")
 }
+
+
+// compressed frames: a stream that ends (or fails) anywhere inside the frame
+// is an error, and fragmentation does not change the result.
+func VP_C09_compressed_frame() {
+	t := 1 + vp.Choice(3)
+	p := Packet{ID: vp.Int32(), Data: vp.Bytes(vp.Choice(4))}
+	vp.SizeBound(40)
+	var w bytes.Buffer
+	vp.Assert(p.Pack(&w, t) == nil, "Pack")
+	frame := append([]byte{}, w.Bytes()...)
+	var q Packet
+	switch vp.Choice(2) {
+	case 0: // fragmentation
+		r := &vpPlainReader{b: append(append([]byte{}, frame...), 0x55), chunk: 1 + vp.Choice(3)}
+		vp.Assert(q.UnPack(r, t) == nil, "UnPack under fragmentation")
+		vp.Assert(q.ID == p.ID, "id under fragmentation")
+		vpEqBytes(q.Data, p.Data, "payload under fragmentation")
+		vp.Assert(r.pos == len(frame), "residual stream under fragmentation")
+	default: // stream ends or fails at every offset inside the frame
+		f := vp.Choice(len(frame))
+		r := &vpFailReader{b: frame, failAt: f, eof: vp.Bool()}
+		vp.Assert(q.UnPack(r, t) != nil, "truncated frame is an error")
+	}
+	vp.Cover("end")
+}
